@@ -70,10 +70,35 @@ HYGIENE_RE = re.compile(
     r"Unset Positivity|Unset Universe|bypass_check|type-in-type|impredicative-set|native_compute")
 
 
-def hygiene():
-    """Scan every .v under coq/ for forbidden declarations. Returns list of offending lines."""
+def coq_closure(pid):
+    """The .v files theories/Props/<pid>.v depends on (transitively, within this development)."""
+    root = os.path.join(COQ, "theories")
+    seen, todo = set(), [os.path.join(root, "Props", pid + ".v")]
+    while todo:
+        f = todo.pop()
+        if f in seen or not os.path.exists(f):
+            continue
+        seen.add(f)
+        txt = strip_coq_comments(open(f).read())
+        for m in re.finditer(r"Require\s+(?:Import\s+|Export\s+)?(.+?)\.(?=\s|$)", txt, re.S):
+            for mod in m.group(1).split():
+                mod = mod.strip()
+                if mod.startswith("QV."):
+                    mod = mod[3:]
+                cand = os.path.join(root, *mod.split(".")) + ".v"
+                if os.path.exists(cand):
+                    todo.append(cand)
+    return sorted(seen)
+
+
+def hygiene(pid=None):
+    """Scan the .v files a property depends on (all files when pid is None) for forbidden declarations."""
     bad = []
-    for root, _, files in os.walk(COQ):
+    if pid is not None:
+        files_iter = [(os.path.dirname(f), [os.path.basename(f)]) for f in coq_closure(pid)]
+    else:
+        files_iter = [(r, fs) for r, _, fs in os.walk(COQ)]
+    for root, files in files_iter:
         for f in files:
             if not f.endswith(".v"):
                 continue
@@ -169,7 +194,7 @@ def coq_props(pid, allow=()):
     t0 = time.time()
     res = {"ok": False, "obligations": 0, "discharged": 0, "assumptions": {}, "log": "", "hygiene": [],
            "failed_theorem": None}
-    bad = hygiene()
+    bad = hygiene(pid)
     res["hygiene"] = bad
     src = os.path.join(COQ, "theories", "Props", pid + ".v")
     txt = strip_coq_comments(open(src).read())
